@@ -205,3 +205,218 @@ Example pinned_next_hop_address_faults :
                     (mk_sel 0 (Some 4) 0 0 [] false) in
   next_hop_address_pinned a = Fault Underflow /\ next_hop_address a = Ok a.
 Proof. cbv zeta. split; vm_compute; reflexivity. Qed.
+
+(* ==================================================================================================
+   Extensions: the environment assumption discharged against the core State model, the full
+   interleaving statement over `Cmd | Data` events, every index expression spelt out, what a frame
+   displays, the divisor of the chart, and the limits (`..._refuted`).
+
+   New proof files: Proofs/TuiShapeOfState.v (shape of a core State, reachable States),
+   Proofs/TuiFrameLemmas.v (what each command / key / frame leaves untouched),
+   Proofs/TuiInterleave.v (events, interleavings, display), Proofs/TuiHostsProofs.v (max_addrs and
+   the row-height clamp; uses the NEW model file Tui/Views.v, which is not part of the extracted
+   model run by the harness).
+   ================================================================================================== *)
+From TV Require Import Core.Types Core.State Tui.Views
+  Proofs.StateProofs Proofs.TuiShapeOfState Proofs.TuiFrameLemmas Proofs.TuiInterleave Proofs.TuiHostsProofs.
+
+(* ---- the data underneath: what trippy-core guarantees, proved instead of assumed ---- *)
+
+(* Every State a tracer can hold - State::new, then published rounds (update_from_round; rounds of the
+   form the strategy publishes, wf_round: c10_strategy_rounds_wf), Tracer::clear and set_error in any
+   order - has a shape (`hops()` of every flow never faults) and that shape satisfies wf_shape: flow 0
+   and every registered flow are keys of the `state` map, registered ids are 1, 2, .. and at most
+   max_flows of them, no flow shows more than 254 hops.  This is the hypothesis `op_wf (OData t s)`
+   of the theorems above; it is no longer an assumption about trippy-core. *)
+Theorem c17_core_state_shape_wf : forall ms mf s, 0 <= mf -> reach ms mf s ->
+  exists d, shape_of_state s = Ok d /\ wf_shape d.
+Proof. exact reach_shape_wf. Qed.
+
+(* ... and State::update_from_round itself never panics on such a State (`self.state[..]`, the hop
+   vector index, FlowRegistry::register), whatever well-formed round comes next. *)
+Theorem c17_core_round_never_faults : forall ms mf s r, 0 <= mf -> reach ms mf s -> wf_round r ->
+  exists s', update_from_round s r = Ok s' /\ reach ms mf s'.
+Proof. exact reach_round_total. Qed.
+
+(* Growing / shrinking paths: a published round never removes a row from any flow (the window
+   lowest_ttl..highest_ttl only widens), so between two frames the number of rows of the selected flow
+   can only shrink through Tracer::clear, a flow switch or a trace switch - the three places where the
+   code clamps. hop_count_of is the number of rows the shape has for that flow. *)
+Theorem c17_rounds_only_grow_paths : forall ms mf s r s', 0 <= mf -> reach ms mf s -> wf_round r ->
+  update_from_round s r = Ok s' -> forall id, hop_count_of s id <= hop_count_of s' id.
+Proof. exact reach_count_mono. Qed.
+
+Theorem c17_shape_rows_are_hop_count : forall ms mf s d id hs, 0 <= mf -> reach ms mf s -> shape_of_state s = Ok d ->
+  TuiApp.hops_for_flow d id = Ok hs -> TuiApp.zlen hs = hop_count_of s id.
+Proof. exact reach_shape_hop_count. Qed.
+
+(* Tracer::clear (State::new again) gives exactly the shape the model's clear_trace_data writes into
+   the world, and set_error only flips the error flag (the bsod view) of the shape. *)
+Theorem c17_clear_and_error_shapes :
+  (forall ms mf d, TuiApp.sh_max_flows d = mf -> shape_of_state (state_new ms mf) = Ok (TuiApp.clear_shape d)) /\
+  (forall s e d, shape_of_state s = Ok d ->
+     shape_of_state (set_error s e) =
+       Ok (TuiApp.mk_shape (TuiApp.sh_max_flows d) (match e with Some _ => true | None => false end)
+             (TuiApp.sh_registry d) (TuiApp.sh_flows d))).
+Proof. split; [exact shape_of_state_new|exact shape_of_set_error]. Qed.
+
+(* The world the TUI starts with - one snapshot per tracer, each of a reachable State - is well formed. *)
+Theorem c17_initial_world : forall (ss : list state) (w : traces),
+  Forall2 (fun s d => core_state s /\ shape_of_state s = Ok d) ss w -> ss <> [] -> wf_traces w.
+Proof. exact world_of_states_wf. Qed.
+
+(* ---- the full interleaving statement ---- *)
+
+(* Events: `Cmd k` = key k goes through the run_app dispatch; `Data t s` = the State of tracer t is now
+   s (ANY State the core can reach: new rounds, clear, growing path, new flows, failure), followed by
+   what the loop does next: prologue (snapshot, clamp_selected_flow, clamp_selected_hop,
+   update_order_flow_counts) unless frozen, and draw.  From TuiApp::new and the first frame, for EVERY
+   finite interleaving of such events: no event is a fault (one Ok entry per event in ev_trace), Sel
+   (`valid`) holds after the first frame and after every event, and so at the end of the run. *)
+Theorem c17_interleaving : forall w cols p m mode asinfo sys evs,
+  wf_traces w -> 0 < zlen cols -> Forall ev_ok evs ->
+  exists a1, frame w (tui_new cols p m mode asinfo sys) = Ok a1 /\ valid w a1 /\
+    length (ev_trace evs w a1) = length evs /\
+    Forall (fun r => exists w' a', r = Ok (w', a') /\ valid w' a') (ev_trace evs w a1) /\
+    exists w' a', run (OFrame :: flat_map ev_ops evs) w (tui_new cols p m mode asinfo sys) = Ok (w', a') /\ valid w' a'.
+Proof. exact interleaving_ok. Qed.
+
+(* The inductive step: one event (command, or data change + frame) from any state satisfying Sel. *)
+Theorem c17_event_preserves : forall e w a, valid w a -> ev_ok e ->
+  exists w' a', run (ev_ops e) w a = Ok (w', a') /\ valid w' a' /\ selection_refers_to_existing_entries (zlen w') a'.
+Proof.
+  intros e w a V H. destruct (ev_step_ok e w a V H) as (w' & a' & E & V'). exists w', a'.
+  split; [exact E|]. split; [exact V'|apply c17_valid_meaning; exact V'].
+Qed.
+
+(* Every index expression of tui_app.rs / columns.rs, one by one, under Sel: trace_info[trace_selected];
+   the `state` map lookup of the selected flow; hops[selected] and `hop_count - 1`; the selected hop
+   address below addr_count (or 0); find_position().unwrap(), `flow_counts.len() - 1`,
+   flow_counts[cur + 1] / [cur - 1] and the flow behind them; `trace_info.len() - 1`,
+   `trace_selected - 1`; settings_tabs()[tab], `tabs.len() - 1`, the item count of the tab and the
+   selected item below it; Columns::toggle / move_down / move_up and `count - 1`. *)
+Theorem c17_index_arithmetic : forall w a, valid w a ->
+  (exists d, tracer_config w a = Ok d) /\
+  (exists hs, hops_for_flow (data a) (sel_flow (a_sel a)) = Ok hs /\
+     (forall i, table_sel (a_sel a) = Some i ->
+        (exists h, zindex i hs = Ok h /\ 0 <= hop_addr (a_sel a) < Z.max 1 (hs_addrs h)) /\
+        sub_w (zlen hs) 1 = Ok (zlen hs - 1) /\ 0 <= i <= zlen hs - 1)) /\
+  (show_flows (a_sel a) = true ->
+     exists cur, find_position (flow_counts (a_sel a)) (sel_flow (a_sel a)) 0 = Ok cur /\
+       0 <= cur < zlen (flow_counts (a_sel a)) /\
+       sub_w (zlen (flow_counts (a_sel a))) 1 = Ok (zlen (flow_counts (a_sel a)) - 1) /\
+       (cur < zlen (flow_counts (a_sel a)) - 1 ->
+          exists e, zindex (cur + 1) (flow_counts (a_sel a)) = Ok e /\ has_flow (data a) (fst e)) /\
+       (cur > 0 -> sub_w cur 1 = Ok (cur - 1) /\
+          exists e, zindex (cur - 1) (flow_counts (a_sel a)) = Ok e /\ has_flow (data a) (fst e))) /\
+  (sub_w (zlen w) 1 = Ok (zlen w - 1) /\
+   (trace_selected (a_sel a) > 0 -> sub_w (trace_selected (a_sel a)) 1 = Ok (trace_selected (a_sel a) - 1))) /\
+  (exists n, get_settings_items_count a = Ok n /\ 0 < n /\
+     zindex (settings_tab (a_sett a)) settings_tabs = Ok (nth (Z.to_nat (settings_tab (a_sett a))) settings_tabs 0) /\
+     sub_w (zlen settings_tabs) 1 = Ok 6 /\
+     (forall s, setting_sel (a_sett a) = Some s -> 0 <= s < n)) /\
+  (settings_tab (a_sett a) = SETTINGS_TAB_COLUMNS -> forall s, setting_sel (a_sett a) = Some s ->
+     (exists c, zindex s (columns (a_sett a)) = Ok c) /\
+     sub_w (zlen (columns (a_sett a))) 1 = Ok (zlen (columns (a_sett a)) - 1) /\
+     (s < zlen (columns (a_sett a)) - 1 -> exists c, columns_move_down (columns (a_sett a)) s = Ok c /\ zlen c = zlen (columns (a_sett a))) /\
+     (s > 0 -> exists c, columns_move_up (columns (a_sett a)) s = Ok c /\ zlen c = zlen (columns (a_sett a)))).
+Proof. exact valid_index_arithmetic. Qed.
+
+(* ---- what is displayed ---- *)
+
+(* A frame that is not frozen displays exactly the current State of the selected trace
+   (trace_info[trace_selected].data.snapshot()), and the flow bars are exactly its registered flows -
+   none dropped by `take(max_flows)`, none invented - each with the round count of its flow. *)
+Theorem c17_frame_displays_selected_trace : forall w a a', valid w a -> frame w a = Ok a' -> frozen (a_view a) = false ->
+  zindex (trace_selected (a_sel a')) w = Ok (data a') /\
+  Permutation.Permutation (map fst (flow_counts (a_sel a'))) (sh_registry (data a')) /\
+  Forall (fun pr => round_count (data a') (fst pr) = Ok (snd pr)) (flow_counts (a_sel a')).
+Proof. exact frame_display. Qed.
+
+(* A frozen frame changes nothing: neither the snapshot nor any selection. *)
+Theorem c17_frozen_frame_changes_nothing : forall w a a', frame w a = Ok a' -> frozen (a_view a) = true -> a' = a.
+Proof. exact frame_frozen. Qed.
+
+(* chart.rs computes `max_samples() / zoom_factor`: from TuiApp::new, along ANY history (no validity
+   needed) the zoom factor stays within 1..16, so the division is never by zero. *)
+Theorem c17_zoom_factor_positive : forall ops w cols p m mode asinfo sys w' a',
+  run ops w (tui_new cols p m mode asinfo sys) = Ok (w', a') -> 1 <= zoom (a_view a') <= 16.
+Proof. exact run_zoom_new. Qed.
+
+(* ---- limits ---- *)
+
+(* Sel is an invariant of the pair (application, SNAPSHOT it displays).  Relative to the LIVE data of
+   the tracer it does not survive a data event: row 2 selected, the trace is cleared - the selected row
+   does not exist in the tracer's State any more, while the app, which only ever indexes its snapshot,
+   is still valid; the next frame re-clamps (selection None on the cleared data).  Any code path that
+   indexed live tracer data with TuiApp's indices would be a defect; the model has none. *)
+Theorem c17_live_data_refuted :
+  exists (w : traces) (a : app) (d : shape),
+    valid w a /\ wf_shape d /\ table_sel (a_sel a) = Some 2 /\
+    valid (upd_nth 0 d w) a /\ ~ hop_ok d (a_sel a) /\
+    exists a', frame (upd_nth 0 d w) a = Ok a' /\ data a' = d /\ table_sel (a_sel a') = None /\ valid (upd_nth 0 d w) a'.
+Proof. exact live_data_counterexample. Qed.
+
+(* "The data being displayed is that of the selected trace" is false while frozen: freeze, next_trace,
+   frame - trace_selected is 1 (header, tabs and settings dialog show trace 1) but the hop table still
+   shows the frozen snapshot of trace 0.  No index is invalid (Sel holds, nothing panics); recorded as
+   an observation about the freeze feature, not as a crash. *)
+Theorem c17_frozen_trace_switch_refuted :
+  exists (w : traces) (ops : list op) (w' : traces) (a' : app),
+    wf_traces w /\ Forall op_wf ops /\ run (OFrame :: ops) w lv_new = Ok (w', a') /\ valid w' a' /\
+    trace_selected (a_sel a') = 1 /\ frozen (a_view a') = true /\
+    zindex 0 w' = Ok (data a') /\ zindex (trace_selected (a_sel a')) w' <> Ok (data a').
+Proof. exact frozen_trace_switch_counterexample. Qed.
+
+(* table.rs: the height of a row is `hop.addr_count().clamp(1, max_addr)`, and Ord::clamp panics for
+   max_addr = 0.  Along EVERY history (commands and data in any order, any States) max_addrs is never Some 0
+   and no row height faults (host_rows: model Tui/Views.v).  Before the repair F21 this needed the assumption
+   that each flow that shows hops shows one with an address - which the strategy does NOT guarantee: after the
+   target distance is known it keeps reporting the carried path length while nothing answers, and a clear
+   during the outage leaves hops without any address; `expand_hosts_max` then stored max_hosts() = Some(0)
+   and the first hop to answer made the frame panic in clamp(1, 0) (shown on the real code, corpus/C17). *)
+Theorem c17_max_addrs_never_zero : forall ops w a w' a', run ops w a = Ok (w', a') -> hosts_inv a ->
+  hosts_inv a' /\ max_addrs (a_view a') <> Some 0 /\
+  forall h, exists n, TuiViews.host_rows (cfg_of a') h = Ok n /\ 1 <= n.
+Proof. exact run_hosts_ok. Qed.
+
+(* the former counterexample after the repair: a State showing only hops that never answered, the
+   `expand_hosts_max` key: max_addrs stays None (no maximum while no hop has an address) and every row has a height *)
+Theorem c17_max_addrs_silent_hops :
+  exists w ops w' a', wf_traces w /\ Forall op_wf ops /\
+    run (OFrame :: ops) w (tui_new [(104, true)] None None 0 false true) = Ok (w', a') /\ valid w' a' /\
+    max_addrs (a_view a') = None /\
+    forall h, exists n, TuiViews.host_rows (cfg_of a') h = Ok n /\ 1 <= n.
+Proof. exact expand_hosts_max_silent. Qed.
+
+(* ---- non-vacuity of the extensions ---- *)
+
+(* a reachable core State (one published round: three hops, the second silent), its shape, and an
+   interleaving over it: data, keys, clear, data again *)
+Example c17_ex_core_state : core_state lv_state /\ wf_round ex_round /\ answered lv_shape.
+Proof.
+  split; [exact lv_state_core|]. split; [exact ex_round_wf|].
+  assert (EQ : lv_shape = mk_shape 4 false [1] [mk_flow 0 1 [mk_hop 1 1; mk_hop 0 2; mk_hop 1 3]; mk_flow 1 1 [mk_hop 1 1; mk_hop 0 2; mk_hop 1 3]])
+    by (vm_compute; reflexivity).
+  rewrite EQ. intros f hs H Hne. unfold hops_for_flow in H. cbn [sh_flows find_flow fs_id] in H.
+  destruct (0 =? f); [cbn in H; inversion H; subst; exists (mk_hop 1 1); split; [left; reflexivity|cbn; lia]|].
+  destruct (1 =? f); [cbn in H; inversion H; subst; exists (mk_hop 1 1); split; [left; reflexivity|cbn; lia]|].
+  discriminate H.
+Qed.
+
+Definition c17_ex_events : list ev :=
+  [Data 0 lv_state; Cmd KNextHop; Cmd KNextHop; Cmd KToggleHopDetails; Cmd KNextHopAddress;
+   Data 0 (state_new 10 4); Cmd KPreviousHop; Data 0 lv_state; Cmd KToggleFlows; Cmd KNextTrace; Cmd KClearTraceData].
+
+Example c17_ex_events_ok : Forall ev_ok c17_ex_events.
+Proof.
+  assert (core_state (state_new 10 4)) as C by (exists 10, 4; split; [lia|apply reach_new]).
+  unfold c17_ex_events. repeat (apply Forall_cons; [first [exact lv_state_core|exact C|exact I]|]). apply Forall_nil.
+Qed.
+
+Example c17_ex_events_run :
+  match run (OFrame :: flat_map ev_ops c17_ex_events) [lv_clear] lv_new with
+  | Ok (_, a) => table_sel (a_sel a) = None /\ show_flows (a_sel a) = true /\ sel_flow (a_sel a) = 1
+  | _ => False
+  end.
+Proof. vm_compute. repeat split. Qed.
